@@ -113,7 +113,13 @@ func uuidOf(k int) primitive.UUID {
 	return u
 }
 
-func textOf(k int) string { return "s" + strconv.Itoa(k) }
+// textOf: one leaf in seven is the empty string — a value, not a NULL (an empty [bytes] has length 0, a NULL -1).
+func textOf(k int) string {
+	if k%7 == 3 {
+		return ""
+	}
+	return "s" + strconv.Itoa(k)
+}
 
 // keyText is the varchar sample used for map keys: it doubles as a struct field name (map<varchar,V>
 // accepts structs, fields matched case-insensitively).
@@ -149,7 +155,12 @@ func buildScalars() []*scalar {
 		s.alts = intAlts(tInt64, true)
 		s.wire = func(k int) []byte { return be(8, uint64(k)) }
 	}
-	blobSample := func(k int) interface{} { return []byte{byte(k), 0xAA, 0x00} }
+	blobSample := func(k int) interface{} {
+		if k%7 == 3 {
+			return []byte{} // empty, not NULL
+		}
+		return []byte{byte(k), 0xAA, 0x00}
+	}
 	{
 		s := add(mk("blob", datatype.Blob, tBytes, famBytes, false, blobSample))
 		s.alts = []altRep{{tString, func(k int) interface{} { return string(blobSample(k).([]byte)) }}}
